@@ -70,6 +70,23 @@ MUTS = {
           cls._on_change.__code__ is not Object._on_change.__code__)
       setattr(cls, '_sym_subscribes_field_updates', subscribes)
     return subscribes"""),
+ 'N17-on-bound-only-for-direct-fields': ('pyglove/core/symbolic/object.py', """    del field_updates
+    return self._on_bound()""", """    if all(len(k) == 1 for k in field_updates):
+      return self._on_bound()"""),
+ 'N18-reverse-notifies-per-position': ('pyglove/core/symbolic/list.py', """        updates.append(
+            base.FieldUpdate(
+                self.sym_path + i, self,
+                self._value_spec.element if self._value_spec else None,
+                old_value, new_value))
+    if flags.is_change_notification_enabled() and updates:
+      self._notify_field_updates(updates)""", """        updates.append(
+            base.FieldUpdate(
+                self.sym_path + i, self,
+                self._value_spec.element if self._value_spec else None,
+                old_value, new_value))
+    if flags.is_change_notification_enabled():
+      for u in updates:
+        self._notify_field_updates([u])"""),
  'N14-pop-notifies-twice': (L, """    with flags.allow_writable_accessors(True):
       del self[index]
     return value""", """    with flags.allow_writable_accessors(True):
